@@ -205,6 +205,13 @@ def check(case, stats):
             s2 = call("serialize", serialize_molecule, call("canonicalize", canonicalize_molecule, back))
         if s2 != s:
             raise Violation("fixed-point-on-family", f"{case['family']} n={n}: tucan(parse(s)) != s")
+        # the same objects again: serializing the canonical graph a second time, and
+        # canonicalizing the canonical graph, must complete as well
+        with default_recursion():
+            s3 = call("serialize-again", serialize_molecule, c)
+            s4 = call("serialize(recanonicalized)", serialize_molecule, call("canonicalize-again", canonicalize_molecule, c))
+        if s3 != s or s4 != s:
+            raise Violation("repeat-on-same-object", f"{case['family']} n={n}: repeating serialize / canonicalize on the same object gives a different string")
     # C13 clause (ii) on deep inputs, at no extra pipeline cost
     cls = [None] * n
     for v, d in c.nodes(data=True):
